@@ -11,6 +11,18 @@
            [k |-> "fmap",    f |-> "addc" | "fillna", v |-> i]
                                                            F + v | F.fillna(v)  (frame-level elementwise)
            [k |-> "head",    n |-> n]                      F.head(n, npartitions = -1)
+           [k |-> "dropna",  how |-> "any" | "all", sub |-> <<names>>, th |-> i | NA]
+                                                           F.dropna(how = .., subset = sub) or, th # NA,
+                                                           F.dropna(thresh = th, subset = sub);  sub = <<>>: all columns
+           [k |-> "dropdup", sub |-> <<names>>, keep |-> "first" | "last"]
+                                                           F.drop_duplicates(subset = sub, keep = ..);  sub = <<>>: whole rows
+           [k |-> "ntop",    n |-> n, c |-> name, big |-> BOOLEAN]
+                                                           F.nlargest(n, c) / F.nsmallest(n, c)
+   (the last three SELECT rows by looking at columns they need not output: a projection may
+   only be pushed below them together with the columns they read - for sub = <<>> that is
+   every column.  Row order after drop_duplicates is not promised by dask: a program is only
+   well-formed if nothing order-dependent - head, ntop, another dropdup - follows one, and its
+   result is compared as a multiset of (label, cells) rows, see OrderFree)
      final [k |-> "frame"]                                 the frame itself
            [k |-> "col", c |-> name]                       F[name]             (a Series)
            [k |-> "red", op |-> "sum"|"min"|"max"|"count", c |-> name]
@@ -109,9 +121,43 @@ StepOp(T, st) ==
                             x |-> IF st.f = "addc" THEN XBin("add", XSelf, XK(st.v)) ELSE XFillNa(XSelf, st.v)]
     [] st.k = "head"    -> [op |-> "head", n |-> st.n, np |-> 0 - 1]
 
+(* row selections that read columns: dropna, drop_duplicates, nlargest / nsmallest *)
+SubOrAll(T, sub) == IF sub = <<>> THEN T.cols ELSE sub
+KeyCells(T, k, cs) == [j \in DOMAIN cs |-> T.rows[k].v[ColPos(T, cs[j])]]
+
+\* dropna: a row stays if (thresh) at least th of the inspected cells are valid, (any) all are, (all) one is
+DropNaPos(T, st) ==
+  LET cs == SubOrAll(T, st.sub) IN
+  PosSeq(NRows(T), LAMBDA k :
+     LET cells == KeyCells(T, k, cs)
+         nn    == Cardinality({ j \in DOMAIN cells : cells[j] # NA })
+     IN IF st.th # NA THEN nn >= st.th ELSE IF st.how = "any" THEN nn = Len(cs) ELSE nn > 0)
+
+\* drop_duplicates: of the rows that agree on the inspected cells (NaN equals NaN) the first / last stays
+DropDupPos(T, st) ==
+  LET cs == SubOrAll(T, st.sub)
+      n  == NRows(T)
+  IN PosSeq(n, LAMBDA k :
+        IF st.keep = "first" THEN ~\E j \in 1..(k - 1) : KeyCells(T, j, cs) = KeyCells(T, k, cs)
+        ELSE ~\E j \in (k + 1)..n : KeyCells(T, j, cs) = KeyCells(T, k, cs))
+
+\* nlargest / nsmallest(n, c): rows by value (descending / ascending), equal values in row order, NaN rows last
+NTopPos(T, st) ==
+  LET p   == ColPos(T, st.c)
+      val(k) == T.rows[k].v[p]
+      key(k) == IF val(k) = NA THEN 1000 ELSE IF st.big THEN 0 - val(k) ELSE val(k)
+      ord == StableSortBy([k \in 1..NRows(T) |-> k], key)
+  IN SubSeq(ord, 1, IF st.n < NRows(T) THEN st.n ELSE NRows(T))
+
+ApplyStep(T, st) ==
+  CASE st.k = "dropna"  -> TakeRows(T, DropNaPos(T, st))
+    [] st.k = "dropdup" -> TakeRows(T, DropDupPos(T, st))
+    [] st.k = "ntop"    -> TakeRows(T, NTopPos(T, st))
+    [] OTHER            -> Apply(T, <<>>, StepOp(T, st))
+
 RECURSIVE RunSteps(_, _)
 RunSteps(T, steps) ==
-  IF steps = <<>> THEN T ELSE RunSteps(Apply(T, <<>>, StepOp(T, steps[1])), SubSeq(steps, 2, Len(steps)))
+  IF steps = <<>> THEN T ELSE RunSteps(ApplyStep(T, steps[1]), SubSeq(steps, 2, Len(steps)))
 
 Scalar(val, kind) == [ser |-> TRUE, err |-> FALSE, cols |-> <<"#">>, kinds |-> <<kind>>, rows |-> <<[idx |-> 0, v |-> <<val>>]>>]
 
@@ -138,19 +184,48 @@ ColsAfter(cols, steps, i) == IF i = 0 THEN cols ELSE ColsStep(ColsAfter(cols, st
 StepReads(st) == CASE st.k = "project" -> SeqSet(st.cols)
                    [] st.k = "filter"  -> ExprCols(st.p)
                    [] st.k = "assign"  -> ExprCols(st.x)
+                   [] st.k \in {"dropna", "dropdup"} -> SeqSet(st.sub)
+                   [] st.k = "ntop"    -> {st.c}
                    [] OTHER -> {}
+\* what a row-selecting step LOOKS AT (sub = <<>>: every column of its input)
+Inspects(before, st) == IF st.k = "ntop" THEN {st.c} ELSE IF st.sub = <<>> THEN SeqSet(before) ELSE SeqSet(st.sub)
+RowSelecting == {"dropna", "dropdup", "ntop"}
+\* nothing whose result depends on the row order follows a drop_duplicates
+OrderFree(steps) ==
+  \A i \in DOMAIN steps : steps[i].k = "dropdup" =>
+     \A j \in (i + 1)..Len(steps) : steps[j].k \notin {"head", "ntop", "dropdup"}
+HasDropDup(steps) == \E i \in DOMAIN steps : steps[i].k = "dropdup"
 \* every step only reads columns that exist when it runs; the final form likewise
 WellFormed(cols0, prog) ==
   /\ \A i \in DOMAIN prog.steps : StepReads(prog.steps[i]) \subseteq SeqSet(ColsAfter(cols0, prog.steps, i - 1))
   /\ \A i \in DOMAIN prog.steps : prog.steps[i].k = "project" =>
         (prog.steps[i].cols # <<>> /\ Cardinality(SeqSet(prog.steps[i].cols)) = Len(prog.steps[i].cols))
   /\ prog.fin.k \in {"col", "red"} => prog.fin.c \in SeqSet(ColsAfter(cols0, prog.steps, Len(prog.steps)))
+  /\ OrderFree(prog.steps)
 
 \* the columns of `cols` (in that order) that are in set W
 KeepCols(cols, W) == SelectSeq(cols, LAMBDA c : c \in W)
 
 (* ------------------------------------------------------------------------ rules *)
-Rules == <<"PP", "PI", "PF", "PA", "PM", "PH", "FA", "FF", "HH", "HM", "HA", "FinP">>
+Rules == <<"PP", "PI", "PF", "PA", "PM", "PH", "PR", "FA", "FF", "OC", "HH", "HM", "HA", "FinP">>
+
+\* conjunctions / disjunctions as sequences of their terms, and back
+RECURSIVE Flat(_, _)
+Flat(x, f) == IF x.e = "bin" /\ x.f = f THEN Flat(x.l, f) \o Flat(x.r, f) ELSE <<x>>
+RECURSIVE Join(_, _)
+Join(xs, f) == IF Len(xs) = 1 THEN xs[1] ELSE XBin(f, Join(SubSeq(xs, 1, Len(xs) - 1), f), xs[Len(xs)])
+
+(* (A & B) | (A & C) | ...  ->  A & (B | C | ...): the AND-terms of the first clause that occur in
+   EVERY other clause are factored out (all of them at once); a clause that consists of common
+   terms only makes the whole disjunction equal to the common part.                            *)
+FactorOr(p) ==
+  LET clauses == Flat(p, "or")
+      terms(j) == Flat(clauses[j], "and")
+      common  == SelectSeq(terms(1), LAMBDA q : \A j \in 2..Len(clauses) : q \in SeqSet(terms(j)))
+      rest(j) == SelectSeq(terms(j), LAMBDA q : q \notin SeqSet(common))
+  IN IF common = <<>> THEN p
+     ELSE IF \E j \in DOMAIN clauses : rest(j) = <<>> THEN Join(common, "and")
+     ELSE XBin("and", Join(common, "and"), Join([j \in DOMAIN clauses |-> Join(rest(j), "and")], "or"))
 
 Splice(steps, i, n, new) == SubSeq(steps, 1, i - 1) \o new \o SubSeq(steps, i + n, Len(steps))
 Proj(cols) == [k |-> "project", cols |-> cols]
@@ -179,6 +254,9 @@ Rewrite(cols0, prog, r, i) ==
   ELSE IF i > n THEN Nothing
   ELSE IF r = "PI" THEN          \* projection of all columns in frame order
        IF s1.k = "project" /\ s1.cols = before THEN done(<<>>, 1) ELSE Nothing
+  ELSE IF r = "OC" THEN          \* common AND-terms factored out of an OR predicate
+       IF s1.k = "filter" /\ s1.p.e = "bin" /\ s1.p.f = "or" /\ FactorOr(s1.p) # s1.p
+       THEN done(<<[s1 EXCEPT !.p = FactorOr(s1.p)]>>, 1) ELSE Nothing
   ELSE IF ~pair THEN Nothing
   ELSE IF r = "PP" THEN          \* projection fusion
        IF s1.k = "project" /\ s2.k = "project" THEN done(<<s2>>, 2) ELSE Nothing
@@ -198,6 +276,12 @@ Rewrite(cols0, prog, r, i) ==
        IF s1.k = "fmap" /\ s2.k = "project" THEN done(<<s2, s1>>, 2) ELSE Nothing
   ELSE IF r = "PH" THEN          \* projection through head
        IF s1.k = "head" /\ s2.k = "project" THEN done(<<s2, s1>>, 2) ELSE Nothing
+  ELSE IF r = "PR" THEN          \* projection through a row selection: only together with the columns it inspects
+       IF s1.k \in RowSelecting /\ s2.k = "project"
+       THEN LET need == KeepCols(before, SeqSet(s2.cols) \cup Inspects(before, s1))
+            IN IF need = before THEN Nothing
+               ELSE IF need = s2.cols THEN done(<<s2, s1>>, 2) ELSE done(<<Proj(need), s1, s2>>, 2)
+       ELSE Nothing
   ELSE IF r = "FA" THEN          \* filter through assign (the assigned value must not hold a reduction:
                                  \* it would be taken of the filtered frame afterwards)
        IF s1.k = "assign" /\ s2.k = "filter" /\ ~HasRed(s1.x)
